@@ -5,7 +5,8 @@
 //! property's subset: no `#`, `##` operands are not macro names) written below.
 //!
 //! request : C12.run \t <api defines> \t <file> \t <file> ...          (first file = entry file)
-//!   api   : `-` or entries joined by `|`, entry = NAME followed by the value tokens (space separated)
+//!   api   : `-` or entries joined by `|`, entry = NAME followed by the value tokens (space separated), or
+//!           `name tokens := value tokens` when the name is not a single identifier (e.g. `F ( X ) := X`)
 //!   file  : name|line|line...   line = `D toks` (#define) | `U toks` (#undef) | `I name` (#include "name")
 //!           | `O` (#pragma once) | `W` (#pragma warning, a directive without effect) | `T toks` (text line)
 //!   toks  : space separated: `~` one blank, `(` `)` `,` `##`, identifiers, decimal integers, `+ - * ; = { }`
@@ -102,7 +103,8 @@ pub struct File {
 
 #[derive(Clone, Debug)]
 pub struct Program {
-    api: Vec<(String, Vec<Tok>)>,
+    /// (name tokens, value tokens): the name is passed to the real code as the concatenated spellings
+    api: Vec<(Vec<Tok>, Vec<Tok>)>,
     files: Vec<File>,
 }
 
@@ -141,7 +143,13 @@ impl Program {
         } else {
             self.api
                 .iter()
-                .map(|(n, v)| format!("{} {}", n, enc_toks(v)).trim_end().to_string())
+                .map(|(n, v)| {
+                    if n.len() == 1 && matches!(n[0], Tok::Id(_)) {
+                        format!("{} {}", enc_toks(n), enc_toks(v)).trim_end().to_string()
+                    } else {
+                        format!("{} := {}", enc_toks(n), enc_toks(v)).trim_end().to_string()
+                    }
+                })
                 .collect::<Vec<_>>()
                 .join("|")
         };
@@ -167,11 +175,15 @@ impl Program {
         if f[1] != "-" {
             for e in f[1].split('|') {
                 let e = e.trim();
-                let (n, v) = match e.find(' ') {
-                    Some(i) => (&e[..i], &e[i + 1..]),
-                    None => (e, ""),
-                };
-                api.push((n.to_string(), parse_toks(v)?));
+                let words: Vec<&str> = e.split(' ').filter(|w| !w.is_empty()).collect();
+                if let Some(k) = words.iter().position(|w| *w == ":=") {
+                    api.push((parse_toks(&words[..k].join(" "))?, parse_toks(&words[k + 1..].join(" "))?));
+                } else {
+                    if words.is_empty() {
+                        return None;
+                    }
+                    api.push((vec![parse_tok(words[0])?], parse_toks(&words[1..].join(" "))?));
+                }
             }
         }
         let mut files = Vec::new();
@@ -291,11 +303,11 @@ fn lex_faithful(ts: &[Tok]) -> bool {
 
 fn program_faithful(p: &Program) -> Result<(), String> {
     for (n, v) in &p.api {
-        if parse_tok(n).map(|t| matches!(t, Tok::Id(_))) != Some(true) {
-            return Err(format!("api name {}", n));
+        if !lex_faithful(n) {
+            return Err(format!("api name {}", enc_toks(n)));
         }
         if !lex_faithful(v) {
-            return Err(format!("api value of {}", n));
+            return Err(format!("api value of {}", enc_toks(n)));
         }
     }
     let mut names = BTreeSet::new();
@@ -390,7 +402,7 @@ fn run_real(p: &Program) -> Real {
         .iter()
         .map(|f| (f.name.clone(), f.real.clone(), Program::render_file(f)))
         .collect();
-    let values: Vec<(String, String)> = p.api.iter().map(|(n, v)| (n.clone(), spell_all(v))).collect();
+    let values: Vec<(String, String)> = p.api.iter().map(|(n, v)| (spell_all(n), spell_all(v))).collect();
     let defines: Vec<(&str, &str)> = values.iter().map(|(n, v)| (n.as_str(), v.as_str())).collect();
     let entry = p.files[0].name.clone();
     let r = guard(|| {
@@ -973,10 +985,16 @@ fn run_reference(p: &Program, dev: Dev, notes: &mut RefNotes) -> Result<Vec<Stri
     let mut r = Reference { macros: BTreeMap::new(), dev, notes };
     // "defines passed to compile behave exactly like #define lines placed before the first line"
     for (n, v) in &p.api {
-        let mut line = vec![Tok::Ws, Tok::Id(n.clone()), Tok::Ws];
+        let mut line = vec![Tok::Ws];
+        line.extend(n.iter().cloned());
+        line.push(Tok::Ws);
         line.extend(v.iter().cloned());
-        if dev.api_dup_keeps_first && r.macros.contains_key(n) {
-            continue;
+        if dev.api_dup_keeps_first {
+            if let Some(Tok::Id(first)) = n.iter().find(|t| **t != Tok::Ws) {
+                if r.macros.contains_key(first) {
+                    continue;
+                }
+            }
         }
         r.define(&line, !dev.api_paste_inert)?;
     }
@@ -1265,11 +1283,12 @@ fn generate(rng: &mut Rng, hist: &mut Hist) -> Vec<Program> {
             g.hist.add("file:pragma-once");
         }
     }
-    // distribute definitions: API candidates are the object-like ones placed first in the entry file
+    // distribute definitions: API candidates are the ones placed first in the entry file (a function-like one is
+    // passed with the name `NAME(params)`)
     let mut leading: Vec<usize> = Vec::new();
     for (mi, l) in &def_lines {
         let fi = g.rng.below(nfiles as u64) as usize;
-        if fi == 0 && g.macros[*mi].params.is_none() && g.rng.chance(2, 3) {
+        if fi == 0 && g.rng.chance(2, 3) {
             leading.push(*mi);
         } else {
             files[fi].lines.push(Line::Define(l.clone()));
@@ -1341,9 +1360,17 @@ fn generate(rng: &mut Rng, hist: &mut Hist) -> Vec<Program> {
         for (k, mi) in leading.iter().enumerate() {
             let line = &def_lines[*mi].1;
             if pl[k] {
-                // value = the body tokens after `~ NAME ~`
-                let value: Vec<Tok> = line.iter().skip(3).cloned().collect();
-                api.push((g.macros[*mi].name.clone(), value));
+                // name = `NAME` or `NAME(params)`, value = the body tokens after the blank that follows
+                let end = match g.macros[*mi].params {
+                    Some(_) => line.iter().position(|t| *t == Tok::RParen).unwrap_or(1),
+                    None => 1,
+                };
+                let name: Vec<Tok> = line[1..=end].to_vec();
+                let value: Vec<Tok> = line.iter().skip(end + 2).cloned().collect();
+                if g.macros[*mi].params.is_some() {
+                    g.hist.add("api:function-like-name");
+                }
+                api.push((name, value));
             } else {
                 head.push(Line::Define(line.clone()));
             }
@@ -1463,7 +1490,7 @@ fn judge(p: &Program, out: &mut Out, hist: &mut Hist) {
                 class = DEV_NAMES[1].to_string();
             } else {
                 let mut seen = BTreeSet::new();
-                if p.api.iter().any(|(n, _)| !seen.insert(n.clone())) {
+                if p.api.iter().any(|(n, _)| !seen.insert(enc_toks(n))) {
                     // two entries of one name stay in the macro list side by side: whichever is not disabled is used
                     class = DEV_NAMES[5].to_string();
                 }
